@@ -20,8 +20,8 @@ Section C03.
   Variable clear_alias : request -> option request.
   (** handler contract: the response is a function [cf] of the request (not of handler state) that depends only on the
       method class, the path of the URI that selects the handler (the internal route if a Prime extension overrode
-      the URI), the vary tuple and — for QueryMatters — the query; query-matters-ness is uniform per path; error
-      responses (sanitize failed) are not cacheable *)
+      the URI), the vary tuple and — for QueryMatters — the query; error responses (sanitize failed) are not
+      cacheable *)
   Variable cf : request -> option (bytes * option bytes) -> bool -> fatx.
   Hypothesis Hpure : forall hs r ov ok, fst (fst (compute hs r ov ok)) = cf r ov ok.
   Hypothesis contract : forall r ov r' ov',
@@ -29,13 +29,11 @@ Section C03.
     vary_tuple r ov = vary_tuple r' ov' -> rq_path (lookup_req r ov) = rq_path (lookup_req r' ov') ->
     (qmx (cf r ov true) = true -> path_query (lookup_req r ov) = path_query (lookup_req r' ov')) ->
     cf r ov true = cf r' ov' true.
-  Hypothesis pref_uniform : forall r ov r' ov',
-    rq_path (lookup_req r ov) = rq_path (lookup_req r' ov') -> qmx (cf r ov true) = qmx (cf r' ov' true).
   Hypothesis Herr : forall r ov, f_spref (fx_fat (cf r ov false)) = SP_NONE.
 
-  Notation runC := (runX hstate compute true ims_on true true fix_clear true sfilter parse_ims sanitize_ok prime
+  Notation runC := (runX hstate compute true ims_on true true fix_clear true true sfilter parse_ims sanitize_ok prime
                          override negotiate vary_tuple vary_header clear_alias).
-  Notation runU := (runX hstate compute false ims_on true true fix_clear true sfilter parse_ims sanitize_ok prime
+  Notation runU := (runX hstate compute false ims_on true true fix_clear true true sfilter parse_ims sanitize_ok prime
                          override negotiate vary_tuple vary_header clear_alias).
 
   (** For every history (requests, page clears, clear-all, waits) started in any cache state satisfying the
@@ -47,7 +45,7 @@ Section C03.
     Forall2 obsx_equiv (runC (c, hs) now ops) (runU (cU, hsU) now ops).
   Proof.
     exact (run_simx hstate compute ims_on fix_clear sfilter parse_ims sanitize_ok prime override negotiate vary_tuple
-             vary_header clear_alias cf Hpure contract pref_uniform Herr).
+             vary_header clear_alias cf Hpure contract Herr).
   Qed.
 
   Theorem cache_transparent_from_empty : forall ops hs hsU now,
@@ -80,9 +78,18 @@ Theorem stream_vary_refuted :
   nth 1 (vary_of (run_cfgx false w5_cx w1_ops)) None = None.
 Proof. exact stream_vary_refuted_w. Qed.
 
+(** before the last repair a query-dependent (QueryMatters) variant computed by handle_vary_missing joined the entry
+    keyed by the path alone (created by a Full variant) and was then served for every query: the request for
+    /v?x=2 got the answer computed for /v?x=1.  With the repair the extra hypothesis "query-matters-ness is uniform
+    per path" of earlier versions of [cache_transparent] is no longer needed. *)
+Theorem qm_variant_refuted :
+  bodies (run_cfgx true w6_cx w6_ops) = [B "static-a"; B "b:/v?x=1"; B "b:/v?x=1"] /\
+  bodies (run_cfgx false w6_cx w6_ops) = [B "static-a"; B "b:/v?x=1"; B "b:/v?x=2"].
+Proof. exact qm_variant_refuted_w. Qed.
+
 (** non-vacuity: a history with a hit, a variant push and an override on the fixture satisfies the contract's
     conclusion on the repaired model *)
 Example c03_ex_repaired_override :
-  bodies (run_cfgx true (mkCfgX (cx_base w3_cx) [] 0 (cx_ovprime w3_cx) true true true true) (w3_ops ++ w3_ops)) =
-  bodies (run_cfgx false (mkCfgX (cx_base w3_cx) [] 0 (cx_ovprime w3_cx) true true true true) (w3_ops ++ w3_ops)).
+  bodies (run_cfgx true (mkCfgX (cx_base w3_cx) [] 0 (cx_ovprime w3_cx) true true true true true) (w3_ops ++ w3_ops)) =
+  bodies (run_cfgx false (mkCfgX (cx_base w3_cx) [] 0 (cx_ovprime w3_cx) true true true true true) (w3_ops ++ w3_ops)).
 Proof. vm_compute. reflexivity. Qed.
